@@ -437,7 +437,7 @@ def sublayout_order(binpath, seed, sh, copies):
         d = judge_group(cases[g[0]], [obs[i] for i in g], res)
         if d is not None:
             res.note(["sublayout_order", cases[g[0]]["layout"][:80]], True,
-                     cls=["kind:sublayout_inspections_share_workdir", f"outcomes:{len(d)}",
+                     cls=["kind:sublayout_inspections_share_workdir", "kind:inspections_share_workdir", "inspection_order:accept", "inspection_order:reject", f"outcomes:{len(d)}",
                           "sublayout_order:" + ("accept" if any(k[0] == "accept" for k in d) else "reject")], n=len(g))
     return res
 
@@ -489,9 +489,51 @@ def keyid_spelling(binpath, seed, sh, reps):
     return res
 
 
+def inspection_order(binpath, seed, sh, copies):
+    """two inspections of one layout that meet in the working directory (the first leaves a file behind, the second needs
+    it - or forbids it): they run in the order in which the layout lists them, on every run"""
+    rng = common.rng_for(seed, PROP, 8500 + sh)
+    W = scen.World(binpath)
+    res = common.Result()
+    reqs, plans = [], []
+    for v in range(6):
+        a, b = rng.sample(["unpack", "examine", "aa", "zz", "scan", "check-1", "Z", "b2"], 2)
+        needs = v % 2 == 0
+        first = scen.mk_inspection(a, ["sh", "-c", "printf ready > stage.txt"], [["ALLOW", "*"]], [["ALLOW", "*"]])
+        if needs:
+            second = scen.mk_inspection(b, ["sh", "-c", "test -f stage.txt"], [["REQUIRE", "stage.txt"], ["ALLOW", "*"]], [["ALLOW", "*"]])
+        else:
+            second = scen.mk_inspection(b, ["true"], [["DISALLOW", "stage.txt"], ["ALLOW", "*"]], [["ALLOW", "*"]])
+        order = [first, second] if v % 4 < 2 else [second, first]
+        layout = scen.mk_layout(W, ["ed4"], [scen.mk_step("build", 1, [W.kid("ed4")], [], [["ALLOW", "*"]], [["ALLOW", "*"]])], order)
+        plans.append(len(reqs))
+        reqs.append((layout, ["ed0"], "new"))
+    reqs.append((pipeline.leaf_link("build", 0), ["ed4"], "new"))
+    wires = scen.sign_all(binpath, reqs, nproc=1)
+    files = {f"build.{W.pfx('ed4')}.link": scen.dumps(wires[-1])}
+    cases, groups = [], []
+    for b in plans:
+        g = []
+        for _ in range(copies):
+            g.append(len(cases))
+            cases.append(scen.verify_case(wires[b], [[W.kid("ed0"), W.pub("ed0")]], files, work_files={"pre.txt": "p"},
+                                          meta={"kind": "inspections_share_workdir", "nlinks": 1}))
+        groups.append(g)
+    obs = common.run_batch(binpath, cases)
+    for g in groups:
+        d = judge_group(cases[g[0]], [obs[i] for i in g], res)
+        if d is not None:
+            res.note(["inspection_order", cases[g[0]]["layout"][:80]], True,
+                     cls=["kind:inspections_share_workdir", f"outcomes:{len(d)}",
+                          "inspection_order:" + ("accept" if any(k[0] == "accept" for k in d) else "reject")], n=len(g))
+    return res
+
+
 def main(ctx):
     res = common.Result()
     for p in common.pmap(history, [(ctx.bin, ctx.seed, s) for s in range(4 if not ctx.thorough else common.NPROC)]):
+        res.merge(p)
+    for p in common.pmap(inspection_order, [(ctx.bin, ctx.seed, s, 12 if not ctx.thorough else 48) for s in range(2 if not ctx.thorough else common.NPROC)]):
         res.merge(p)
     for p in common.pmap(sublayout_order, [(ctx.bin, ctx.seed, s, 12 if not ctx.thorough else 48) for s in range(2 if not ctx.thorough else common.NPROC)]):
         res.merge(p)
